@@ -70,6 +70,11 @@ func setList(m map[string]bool) []string {
 // runOne drives one input through one entry point and records the trace. extra: further calls after the end was seen.
 // Returns (number of calls, number of non-error reports, whether the end report was reached).
 func runOne(w *tr.Writer, L *Lang, input []byte, logInput bool, gen tr.E) (calls, units int, ended bool) {
+	return runOneOpt(w, L, input, logInput, gen, false)
+}
+
+// runOneOpt: with folding, long traces are compacted while they are recorded (see fold).
+func runOneOpt(w *tr.Writer, L *Lang, input []byte, logInput bool, gen tr.E, folding bool) (calls, units int, ended bool) {
 	n := len(input)
 	back := make([]byte, n, n+9)
 	copy(back, input)
@@ -171,6 +176,9 @@ func runOne(w *tr.Writer, L *Lang, input []byte, logInput bool, gen tr.E) (calls
 		key := fmt.Sprint(r.kind, "|", etext, "|", off, "|", len(r.data))
 		ev["same"] = r.isErr && lastErr && key == lastKey // identical to the previous report
 		w.Ev("Next", ev)
+		if folding {
+			fold(w)
+		}
 		if !r.isErr {
 			units++
 		}
